@@ -171,6 +171,16 @@ func (iv *Value) ValueFrom(value any) {
 		switch rv.Kind() {
 		case reflect.Slice, reflect.Array:
 			iv.ItemType = ItemTypeArray
+			if rv.Type().Elem().Kind() == reflect.Uint8 {
+				// JSON encodes a byte slice as a base64 string, which ValueFor
+				// cannot read back as an array (the value would be lost): store
+				// the bytes as an array of numbers
+				numbers := make([]uint, rv.Len())
+				for i := range numbers {
+					numbers[i] = uint(rv.Index(i).Uint())
+				}
+				value = numbers
+			}
 			data, err := json.Marshal(value)
 			if err != nil {
 				return
